@@ -18,7 +18,7 @@ use crate::tags::{
     ATOM_CACHE_REF, ATOM_EXT, ATOM_UTF8_EXT, BINARY_EXT, BIT_BINARY_EXT, COMPRESSED_EXT,
     DIST_FRAG_HEADER, DIST_HEADER, EXPORT_EXT, FLOAT_EXT, INTEGER_EXT, LARGE_BIG_EXT,
     LARGE_TUPLE_EXT, LIST_EXT, LOCAL_EXT, MAP_EXT, NEW_FLOAT_EXT, NEW_FUN_EXT, NEW_PID_EXT,
-    NEW_REFERENCE_EXT, NEWER_REFERENCE_EXT, NIL_EXT, PID_EXT, PORT_EXT, REFERENCE_EXT,
+    NEW_PORT_EXT, NEW_REFERENCE_EXT, NEWER_REFERENCE_EXT, NIL_EXT, PID_EXT, PORT_EXT, REFERENCE_EXT,
     SMALL_ATOM_EXT, SMALL_ATOM_UTF8_EXT, SMALL_BIG_EXT, SMALL_INTEGER_EXT, SMALL_TUPLE_EXT,
     STRING_EXT, V4_PORT_EXT, VERSION,
 };
@@ -285,6 +285,7 @@ fn parse_term_from_tag<'a>(
         COMPRESSED_EXT => parse_compressed(input, cache),
         REFERENCE_EXT => parse_reference_ext(input, cache),
         PORT_EXT => parse_port_ext(input, cache),
+        NEW_PORT_EXT => parse_new_port_ext(input, cache),
         PID_EXT => parse_pid_ext(input, cache),
         NEW_REFERENCE_EXT => parse_new_reference_ext(input, cache),
         LOCAL_EXT => parse_local_ext(input, cache),
@@ -362,6 +363,21 @@ fn parse_port_ext<'a>(input: &'a [u8], cache: &AtomCache) -> NomResult<'a, Owned
     Ok((
         input,
         OwnedTerm::Port(ExternalPort::new(node, id as u64, creation as u32)),
+    ))
+}
+
+fn parse_new_port_ext<'a>(input: &'a [u8], cache: &AtomCache) -> NomResult<'a, OwnedTerm> {
+    let (input, node_term) = parse_term(input, cache)?;
+    let node = if let OwnedTerm::Atom(atom) = node_term {
+        atom
+    } else {
+        return Err(nom::Err::Failure(NomError::new(input, ErrorKind::Tag)));
+    };
+    let (input, id) = be_u32(input)?;
+    let (input, creation) = be_u32(input)?;
+    Ok((
+        input,
+        OwnedTerm::Port(ExternalPort::new(node, id as u64, creation)),
     ))
 }
 
